@@ -284,8 +284,8 @@ class FnTranslator:
             if name in ("map", "map_err") and self.interior and len(e) == 4 and e[3][0] in ("path", "closure") and \
                     not (name == "map_err" and e[3][0] == "path" and len(e[3]) == 2):
                 return self.hof_map(e[1], e[3], name == "map_err")
-            if name == "as_slice" and self.interior:
-                name = "into"
+            if name in ("as_slice", "as_ref") and self.interior and len(e) == 3:
+                return "(ECall \"into\" [%s])" % self.expr(e[1])      # a view of the same value
             if name == "into" and self.interior:
                 # a conversion into another type (StdError into the contract's error type): kept visible
                 return "(ECon \"Into::into\" [%s])" % self.expr(e[1])
@@ -329,6 +329,8 @@ class FnTranslator:
                 return "(EIfLet %s %s %s %s)" % (self.pat(e[1][1]), self.expr(e[1][2]), self.block(e[2]), els)
             return "(EIf %s %s %s)" % (self.expr(e[1]), self.block(e[2]), els)
         if h == "match":
+            if self.interior and any(a[0] == "arm" and len(a) == 4 and a[2][0] == "guard" for a in e[2:]):
+                return self.match_with_guards(e)
             arms, conditional = [], False
             for a in e[2:]:
                 if a[0] == "armc" and len(a) == 4 and self.interior:
@@ -355,7 +357,8 @@ class FnTranslator:
             for mh in re.finditer(r"#\s*(\w+)", text):
                 if mh.group(1) not in holes:
                     holes.append(mh.group(1))
-            return "(ECon \"quote\" %s)" % clist(["(EConst (VStr %s))" % cs(text)] + ["(EVar %s)" % cs(x) for x in holes])
+            return "(ECon \"quote\" [EConst (VStr %s); ERecord \"holes\" %s None])" % (
+                cs(text), clist(["(%s, EVar %s)" % (cs(x), cs(x)) for x in holes]))
         if h == "format" and self.interior:
             return "(ECon \"format\" %s)" % clist(["(EConst (VStr %s))" % cs(S(e[1]))] + [self.expr(a) for a in e[2:]])
         if h == "while":
@@ -402,6 +405,8 @@ class FnTranslator:
             elif name in ("str::to_owned", "String::from", "ToOwned::to_owned"):
                 app = "EVar %s" % cs(v)
             else:
+                if segs[-1] in self.externals:
+                    name = "extern::" + segs[-1]
                 self.calls.add(name)
                 app = "ECall %s [EVar %s]" % (cs(name), cs(v))
         else:
@@ -414,6 +419,28 @@ class FnTranslator:
         none = "(PCon \"None\" [], ECon \"None\" [])"
         arms = [keep("Ok"), conv("Err")] if on_err else [conv("Ok"), keep("Err"), conv("Some"), none]
         return "(EMatch %s %s)" % (self.expr(recv), clist(arms))
+
+    def match_with_guards(self, e):
+        """`match s { p if g => a, rest.. }`: when p matches and g is false the remaining arms are tried - the scrutinee is
+        bound once and matched again against the remaining arms"""
+        self.hof_no = getattr(self, "hof_no", 0) + 1
+        tmp = "match_s%d" % self.hof_no
+
+        def arms_from(k):
+            out = []
+            for i in range(k, len(e)):
+                a = e[i]
+                if a[0] != "arm":
+                    raise TranslateError("unsupported match arm: %r" % (a,))
+                if len(a) == 4 and a[2][0] == "guard":
+                    rest = "(EMatch (EVar %s) %s)" % (cs(tmp), clist(arms_from(i + 1)))
+                    out.append("(%s, EIf %s %s %s)" % (self.pat(a[1]), self.expr(a[2][1]), self.block(a[3]), rest))
+                elif len(a) == 3:
+                    out.append("(%s, %s)" % (self.pat(a[1]), self.block(a[2])))
+                else:
+                    raise TranslateError("unsupported match arm: %r" % (a,))
+            return out
+        return "(EBlock [SLet (PVar %s) %s; STail (EMatch (EVar %s) %s)])" % (cs(tmp), self.expr(e[1]), cs(tmp), clist(arms_from(2)))
 
     def closure1(self, clo):
         if len(clo[1]) != 2 or clo[1][1][0] != "pident":
@@ -751,6 +778,38 @@ def translate_macro_logic():
     return out + [found]
 
 
+MT_LOGIC_EXTERNS = {"crate_module", "emit_bracketed_generics", "get_ident_from_type"}
+
+
+def translate_mt_logic():
+    """`MtHelpers::emit_impl_contract` and `emit_default_dispatch` (sylvia-derive/src/contract/mt.rs): which body each of the
+    six operations of the generated `impl cw_multi_test::Contract` gets."""
+    def setup(t):
+        t.interior = True
+        t.externals = {"emit_multitest_dispatch", "get_only_variant", "function_name", "msg_or_default", "query_or_default",
+                       "emit_ctx_values", "as_accessor_wrapper_name"}
+        t.own_methods = {"get_entry_point": "get_entry_point"}
+    for x in MT_LOGIC_EXTERNS:
+        FOREIGN[x] = "call:extern::" + x
+    kv = fetch_ast(os.path.join(common.REPO, "sylvia-derive", "src", "contract", "mt.rs"))
+    known = {"get_entry_point", "emit_default_dispatch", "is_some", "is_none", "is_empty"} | {"extern::" + x for x in MT_LOGIC_EXTERNS} | \
+        {"extern::" + x for x in ("emit_multitest_dispatch", "get_only_variant", "function_name", "msg_or_default", "query_or_default",
+                                  "emit_ctx_values", "as_accessor_wrapper_name")}
+    out = translate_methods("contract/mt.rs", {"MtHelpers": ["emit_impl_contract"]}, setup=setup, kv=kv, extra_known=known)
+    dd = None
+    for k, v in kv:
+        if k == "fn":
+            sx = parse_sx(v)
+            if S(sx[1]) == "emit_default_dispatch":
+                dd, cl = translate_fn(sx, setup=setup)
+                bad = cl - BUILTINS - known
+                if bad:
+                    raise TranslateError("emit_default_dispatch calls %s" % sorted(bad))
+    if dd is None:
+        raise TranslateError("contract/mt.rs: fn emit_default_dispatch not found")
+    return out + [dd]
+
+
 RESP_WANTED = {"SubMsg": ["into_msg"], "Response": ["into_response"]}
 
 
@@ -823,6 +882,11 @@ def generate():
     except TranslateError as e:
         macro, _ = [], errors.append("macro logic (entry_points.rs, override_entry_point.rs): %s" % e)
 
+    try:
+        mtlogic = translate_mt_logic()
+    except TranslateError as e:
+        mtlogic, _ = [], errors.append("macro logic (contract/mt.rs emit_impl_contract): %s" % e)
+
     def prog(fns):
         return "  [ " + ";\n    ".join(fns) + " ]." if fns else "  []."
     text = "\n".join([
@@ -846,6 +910,8 @@ def generate():
         "Definition mtmeth_fns : program :=", prog(mtmeth), "",
         "(* sylvia-derive: decision logic of the macro - EntryPoints::emit (which entry points exist) and get_entry_point *)",
         "Definition macro_fns : program :=", prog(macro), "",
+        "(* sylvia-derive: which body each operation of the generated `impl cw_multi_test::Contract` gets (contract/mt.rs) *)",
+        "Definition mtlogic_fns : program :=", prog(mtlogic), "",
         "(* sylvia/src/into_response.rs: IntoMsg / IntoResponse; `enabled_features` = the cargo features switched on *)",
         "Definition resp_program (enabled_features : list string) : program :=", prog(resp), ""])
     return text, errors
